@@ -25,6 +25,7 @@ def main():
     ap.add_argument("--tier", default="quick")
     ap.add_argument("--match", default=None, help="regular expression on the change id")
     a = ap.parse_args()
+    a.dir = os.path.abspath(a.dir)
     results = {}
     for name in sorted(os.listdir(a.dir)):
         d = os.path.join(a.dir, name)
@@ -41,6 +42,7 @@ def main():
         r = subprocess.run(["patch", "-p1", "-s", "-i", patch], cwd=copy, capture_output=True, text=True)
         if r.returncode != 0:
             results[name] = {"property": prop, "error": "patch does not apply: " + r.stdout[-300:] + r.stderr[-300:]}
+            print(name, json.dumps(results[name]), flush=True)
             shutil.rmtree(base, ignore_errors=True)
             continue
         env = dict(os.environ, VERIF_REPO=copy)
